@@ -141,6 +141,8 @@ def replay(rep):
     r = rep['replay']
     if r.get('function') == 'LEVINSON':
         rr = vlib.unhexv(r['r']); order = r['order']
+        if r.get('real'):
+            rr = np.real(rr)
         if r.get('expect') == 'raises':
             try:
                 LEVINSON(rr, order)
@@ -409,6 +411,19 @@ def run(ctx):
                 LEVINSON(r3, p)
                 ctx.violation('levinson_raises/LEVINSON/' + tag, 'no exception for a sequence that is not positive definite (a leading Toeplitz block has a negative eigenvalue)',
                               {'function': 'LEVINSON', 'r': vlib.hexv(r3), 'order': p, 'expect': 'raises'})
+            except ValueError:
+                pass
+        # sequences with a NON-POSITIVE zero lag: the negated (negative definite) sequence, and the same with the zero lag alone negated;
+        # both have a first leading block (r0) that is negative, so they are not positive definite: must raise unless singularity is allowed
+        for nm, r5 in (('negated', -np.asarray(r)), ('zero_lag_negated', np.concatenate(([-np.real(r[0])], np.asarray(r)[1:])))):
+            if pd_verdict(r5) != 'indef':
+                continue
+            ctx.case(('search-lev-' + nm, r5.tobytes(), p), nontrivial=(p >= 2))
+            ctx.count('search/LEVINSON/%s/%s' % (nm, tag))
+            try:
+                _, P5, _k5 = LEVINSON(r5, p)
+                ctx.violation('levinson_raises/LEVINSON/%s/%s' % (nm, tag), 'no exception for a sequence with negative zero lag (%s positive-definite sequence; returned P=%r)' % (nm, P5),
+                              {'function': 'LEVINSON', 'r': vlib.hexv(r5), 'order': p, 'expect': 'raises', 'real': not cplx})
             except ValueError:
                 pass
     # solvers: residuals
